@@ -339,7 +339,7 @@ EMPTY = Summary()
 # state = (S, N, flags, env, u);  env = tuple of (name, value), innermost last
 def st_set(st, S=None, N=None, flags=None, env=None, u=None):
     return (st[0] if S is None else S, st[1] if N is None else N, st[2] if flags is None else flags,
-            st[3] if env is None else env, st[4] if u is None else u)
+            st[3] if env is None else env, st[4] if u is None else u) + st[5:]   # st[5:] = client extension
 
 
 def merge(outs):
@@ -348,9 +348,9 @@ def merge(outs):
         return outs
     d = {}
     for (k, st, v) in outs:
-        key = (k, st[1], st[2], st[3], st[4], v)
+        key = (k, st[1], st[2], st[3], st[4], v, st[5:])
         d[key] = d.get(key, 0) | st[0]
-    return [(k[0], (S, k[1], k[2], k[3], k[4]), k[5]) for k, S in d.items() if S]
+    return [(k[0], (S, k[1], k[2], k[3], k[4]) + k[6], k[5]) for k, S in d.items() if S]
 
 
 def truth(v):
@@ -365,6 +365,30 @@ def B(x, dec=True):
 
 
 class Interp:
+    # extension points for clients that carry more state in st[5:] (rules/c06_children.py)
+    extra_builtins = frozenset()
+
+    def extra_init(self):
+        return ()
+
+    def extra_out(self, st, fr):
+        return ()
+
+    def extra_apply(self, st, extra, raw_args, fr, node, callee):
+        return st
+
+    def norm_args(self, args):
+        return tuple(self.norm_arg(a) for a in args)
+
+    def hook_call(self, path, args, st, fr, node):
+        return None
+
+    def hook_advance(self, before, after):
+        return after
+
+    def round_reset(self):
+        pass
+
     def __init__(self, c, dom, tokensets):
         self.c = c
         self.dom = dom
@@ -449,7 +473,7 @@ class Interp:
             for n in walk(b["body"]):
                 if n[0] in ("call", "mcall"):
                     cal = callee_of(n)
-                    if cal in BUILTINS:
+                    if cal in BUILTINS or cal in self.extra_builtins:
                         direct.add(p)
                     elif cal in self.fns:
                         es.add(cal)
@@ -1019,7 +1043,7 @@ class Interp:
                 raise Refuse("loop fixpoint does not converge in %s" % fr.path)
             todo = []
             for s in work:
-                hk = (s[1], s[2], s[3])
+                hk = (s[1], s[2], s[3]) + s[5:]
                 old = head.get(hk, 0)
                 if s[0] & ~old:
                     head[hk] = old | s[0]
@@ -1071,7 +1095,7 @@ class Interp:
         for n in walk(e):
             if n[0] in ("call", "mcall"):
                 cal = callee_of(n)
-                if cal in BUILTINS or (cal in self.fns and cal in self.relevant):
+                if cal in BUILTINS or cal in self.extra_builtins or (cal in self.fns and cal in self.relevant):
                     return True
                 if n[0] == "call" and is_node(n[2]) and n[2][0] == "local":
                     return True
@@ -1204,6 +1228,9 @@ class Interp:
 
     def call_fn(self, path, args, st, fr, node):
         dom = self.dom
+        hooked = self.hook_call(path, args, st, fr, node)
+        if hooked is not None:
+            return hooked
         if path == P_NTH:
             i = args[1] if len(args) > 1 else None
             return [("n", st, CUR if i == ("i", 0) else None)]
@@ -1213,7 +1240,7 @@ class Interp:
                 outs.append(("n", st_set(st, S=st[0] & dom.eof), None))     # raw_advance returns early at EOF
             if st[0] & ~dom.eof:
                 s = self.moved(st)
-                outs.append(("n", st_set(s, S=st[1], N=dom.nontrivia), None))
+                outs.append(("n", self.hook_advance(st, st_set(s, S=st[1], N=dom.nontrivia)), None))
             return outs
         if path == P_SKIP:
             outs = []
@@ -1266,15 +1293,20 @@ class Interp:
         return v
 
     def apply(self, path, params, body, args, st, fr, node, parametric):
-        args = tuple(self.norm_arg(a) for a in args)
+        raw_args = args
+        args = self.norm_args(args)
         if self.callmoved:
             self.callmoved[-1] = st[2][0]
         summ = self.analyse(path, params, body, st[0], st[1], args, parametric, fr.key)
         self.bubble(fr, node, summ, st, path)
         outs = []
-        for (mv, S, N, v) in sorted(summ.outs, key=repr):     # deterministic traversal order
+        for out in sorted(summ.outs, key=repr):     # deterministic traversal order
+            (mv, S, N, v) = out[:4]
             s = self.moved(st) if mv else st
-            outs.append(("n", st_set(s, S=S, N=N), v))
+            s = st_set(s, S=S, N=N)
+            if len(out) > 4:
+                s = self.extra_apply(s, out[4:], raw_args, fr, node, path)
+            outs.append(("n", s, v))
         return outs
 
     def analyse(self, path, params, body, S, N, args, parametric, caller=None):
@@ -1300,7 +1332,7 @@ class Interp:
         self.parent[key] = caller
         fr = Frame(path, parametric, key)
         env = ()
-        st = (S, N, (False,), (), False)
+        st = (S, N, (False,), (), False) + self.extra_init()
         for i, pat in enumerate(params):
             v = args[i] if i < len(args) else None
             if is_node(pat) and pat[0] == "pbind" and pat[2] is None:
@@ -1311,7 +1343,7 @@ class Interp:
         summ = fr.summary
         for (k, s, v) in self.ev(body, st, fr):
             if k in ("n", "r") and s[0]:
-                summ.outs.add((s[2][0], s[0], s[1], self.norm_arg(v)))
+                summ.outs.add((s[2][0], s[0], s[1], self.norm_arg(v)) + self.extra_out(s, fr))
         old = self.memo.get(key)
         if old is not None:
             before = old.size()
@@ -1347,6 +1379,7 @@ class Interp:
             self.parent = {}
             self.recur = {}
             self.stack, self.callmoved = [], []
+            self.round_reset()
             self.analyse(ENTRY, [p[0] for p in b["params"]], b["body"], self.dom.tokens, self.dom.nontrivia,
                          (PARSERV,), False)
             if not self.changed:
